@@ -45,6 +45,20 @@ pub fn dir_digest(dir: &Path) -> String {
     format!("{h:016x}")
 }
 
+/// The in-place part of the scripted app-dir preprocessor (also applied to the model copy).
+pub fn preprocessor_edit(dir: &Path, edit: u8) -> std::io::Result<()> {
+    use std::io::Write;
+    match edit {
+        1 => {
+            let mut f = std::fs::OpenOptions::new().append(true).open(dir.join("app.txt"))?;
+            f.write_all(b"appended in place\n")
+        }
+        2 => std::fs::write(dir.join("app.txt"), "rewritten\n"),
+        3 => std::fs::remove_file(dir.join("sub dir/ünï.bin")),
+        _ => Ok(()),
+    }
+}
+
 // ------------------------------------------------------------------ reference option grammars
 
 #[derive(Debug, Default, Clone, PartialEq)]
@@ -304,7 +318,8 @@ pub fn run_once(s: &Scenario, scratch: &Path) -> Result<RunResult, String> {
             std::fs::write(model.join("app.txt"), "fixture app\n").map_err(io)?;
             std::fs::write(model.join("sub dir/ünï.bin"), [0u8, 159, 146, 150]).map_err(io)?;
             std::fs::write(model.join("added-by-preprocessor.txt"), content).map_err(io)?;
-            expected_pre.insert(content.clone(), dir_digest(&model));
+            preprocessor_edit(&model, n.cfg.preprocessor_edit).map_err(io)?;
+            expected_pre.insert(format!("{}#{}", content, n.cfg.preprocessor_edit), dir_digest(&model));
             let _ = std::fs::remove_dir_all(&model);
         }
     }
@@ -518,7 +533,9 @@ pub fn judge_c17(s: &Scenario, r: &RunResult) -> Vec<String> {
                 if Path::new(path) == r.fixture || !Path::new(path).starts_with(&r.tmp) {
                     v.push(format!("pack build #{bi}: with a preprocessor the app path must be a private copy under TMPDIR, got {path:?}"));
                 }
-                if e.digest.as_deref() != r.expected_preprocessed_digests.get(content).map(String::as_str) {
+                if e.digest.as_deref()
+                    != r.expected_preprocessed_digests.get(&format!("{}#{}", content, c.preprocessor_edit)).map(String::as_str)
+                {
                     v.push(format!("pack build #{bi}: the app copy handed to pack is not fixture + preprocessor changes"));
                 }
             }
